@@ -64,6 +64,7 @@ class Phase:
         self.zero = zero_budgets
         S.begin_phase(name, faults)
         self.bb = parse_belief_base(doc["base"]["text"])
+        self.bb2 = parse_belief_base(doc["base2"]["text"]) if doc.get("base2") else None
         self.managers = []
         self.records = []
         self.mp_orders = []
@@ -87,7 +88,7 @@ class Phase:
             rec = {"op": i, "kind": op["op"], "exc": None}
             if op["op"] == "new_manager":
                 try:
-                    m = InferenceManager(self.bb, op["system"], "z3", op["pmaxsat"], op["weakly"])
+                    m = InferenceManager(self.bb2 if int(op.get("base", 1)) == 2 else self.bb, op["system"], "z3", op["pmaxsat"], op["weakly"])
                 except Exception as e:  # noqa: BLE001
                     m = None
                     rec["exc"] = type(e).__name__
@@ -128,6 +129,7 @@ class Phase:
                         rec["auto_inf"] = b
                 simmp.SIMMP.state = simmp.MPState(op.get("latencies") or [])
                 t0 = S.now
+                err0 = S.fired.get("error", 0)
                 try:
                     df = m.inference(q, multi_inference=bool(op.get("multi")), **kw)
                     rec["rows"] = _rows(df)
@@ -137,6 +139,8 @@ class Phase:
                     rec["exc"] = type(e).__name__
                     rec["msg"] = str(e)[:300]
                     rec["tb"] = traceback.format_exc()[-800:]
+                if S.fired.get("error", 0) > err0 and not op.get("multi"):
+                    rec["solver_error_injected"] = True
                 st = simmp.SIMMP.state
                 rec["leftovers"] = st.leftovers()
                 if st.processes:
@@ -167,43 +171,81 @@ class Phase:
         return self.records
 
 
-def _reference_answers(doc, S):
-    """C13 reference: each query, alone, on a fresh manager, sequentially, no budgets."""
+def _base_text(doc, base_no):
+    return doc["base"]["text"] if int(base_no or 1) == 1 else doc["base2"]["text"]
+
+
+def _rkey(cfg, text):
+    return "%s|%s|%s|%s|%s" % (cfg[0], cfg[1], cfg[2], cfg[3], text)
+
+
+def _one_reference(doc, cfg, text, S):
+    """Runs in a pristine fork: the query alone, fresh base object, fresh manager, one call."""
     from inference.inference_manager import InferenceManager
     from parser.Wrappers import parse_belief_base, parse_queries
 
+    try:
+        t0 = S.now
+        bb = parse_belief_base(_base_text(doc, cfg[3]))
+        m = InferenceManager(bb, cfg[0], "z3", cfg[1], cfg[2])
+        df = m.inference(parse_queries(text))
+        vt = S.now - t0
+        if len(df) != 1:
+            return {"harness_error": "reference call returned %d rows" % len(df)}
+        r = _rows(df)[0]
+        if r["ito"] is not False or r["pto"] is not False:
+            return {"harness_error": "reference row flagged without budgets"}
+        return {"result": r["result"], "vt": vt}
+    except seams.HarnessError as e:
+        return {"harness_error": str(e)}
+    except Exception as e:  # noqa: BLE001
+        return {"exc": type(e).__name__}
+
+
+def _reference_answers(doc, S):
+    """C13 reference: each query, alone, on a fresh manager over a fresh base object, sequentially,
+    no budgets - and in a process of its own (a fork of the still pristine scenario child), so that
+    nothing another manager or another base left behind in the process can reach it."""
     S.begin_phase("reference", [])
     S.begin_op(-1)
     refs = {}
     cfgs = {}
     for op in doc["ops"]:
         if op["op"] == "new_manager":
-            cfgs[len(cfgs)] = (op["system"], op["pmaxsat"], bool(op["weakly"]))
+            cfgs[len(cfgs)] = (op["system"], op["pmaxsat"], bool(op["weakly"]), int(op.get("base", 1)))
     for op in doc["ops"]:
         if op["op"] != "inference":
             continue
         cfg = cfgs[op["mgr"]]
         for _, text in op["batch"]:
-            key = "%s|%s|%s|%s" % (cfg[0], cfg[1], cfg[2], text)
+            key = _rkey(cfg, text)
             if key in refs:
                 continue
+            r, w = os.pipe()
+            pid = os.fork()
+            if pid == 0:
+                try:
+                    os.close(r)
+                    os.write(w, pickle.dumps(_one_reference(doc, cfg, text, S)))
+                finally:
+                    os._exit(0)
+            os.close(w)
+            chunks = []
+            while True:
+                bts = os.read(r, 1 << 16)
+                if not bts:
+                    break
+                chunks.append(bts)
+            os.close(r)
+            os.waitpid(pid, 0)
             try:
-                t0 = S.now
-                # the trivial history: fresh base object, fresh manager, one query, one call
-                bb = parse_belief_base(doc["base"]["text"])
-                m = InferenceManager(bb, cfg[0], "z3", cfg[1], cfg[2])
-                df = m.inference(parse_queries(text))
-                vt = S.now - t0
-                if len(df) != 1:
-                    raise seams.HarnessError("reference call returned %d rows" % len(df))
-                r = _rows(df)[0]
-                if r["ito"] is not False or r["pto"] is not False:
-                    raise seams.HarnessError("reference row flagged without budgets")
-                refs[key] = {"result": r["result"], "vt": vt}
-            except seams.HarnessError:
-                raise
-            except Exception as e:  # noqa: BLE001
-                refs[key] = {"exc": type(e).__name__}
+                res = pickle.loads(b"".join(chunks))
+            except Exception:  # noqa: BLE001
+                raise seams.HarnessError("reference child died")
+            if "harness_error" in res:
+                raise seams.HarnessError(res["harness_error"])
+            refs[key] = res
+            S.trace("ref", key, res.get("result"), res.get("exc"))
     return refs, cfgs
 
 
@@ -224,9 +266,11 @@ def judge_c13(doc, refs, cfgs, records):
             continue
         op = doc["ops"][rec["op"]]
         cfg = cfgs[op["mgr"]]
-        rkeys = ["%s|%s|%s|%s" % (cfg[0], cfg[1], cfg[2], t) for _, t in op["batch"]]
+        rkeys = [_rkey(cfg, t) for _, t in op["batch"]]
         ref_excs = {refs[k]["exc"] for k in rkeys if "exc" in refs[k]}
         if rec["exc"]:
+            if rec.get("solver_error_injected"):
+                continue  # the failure was injected; what matters is the calls that follow
             if rec["exc"] not in ref_excs:
                 out.append(_viol("C13:exception:" + rec["exc"], rec["op"], msg=rec.get("msg"), tb=rec.get("tb")))
             continue
@@ -365,7 +409,7 @@ def plan_faults(doc, counts, rng):
             f.update(kind="jump", dur=dur)
         elif kind == "crash" and worker is not None:
             f.update(kind="crash")
-        elif kind == "error" and worker is not None:
+        elif kind == "error" and (worker is not None or plan.get("parent_error")):
             f.update(kind="error")
         elif kind == "exit_stall" and worker is not None:
             f.update(kind="stall", site="exit", k=0, dur=round(rng.choice([0.5, 9.0, 10.5, 40.0]), 3))
@@ -440,7 +484,7 @@ def run_scenario(doc, full_trace=False):
 
         def auto_budget(op):
             cfg = cfgs[op["mgr"]]
-            vts = [refs["%s|%s|%s|%s" % (cfg[0], cfg[1], cfg[2], t)].get("vt") for _, t in op["batch"]]
+            vts = [refs[_rkey(cfg, t)].get("vt") for _, t in op["batch"]]
             if any(v is None for v in vts) or not vts:
                 return 0
             return round(1.5 * max(vts) + 0.001, 6)
@@ -712,9 +756,11 @@ def generate(prop, verif_seed, idx, tier="quick", cls=None, recover=False):
     g = stream(sseed, "gen")
     if cls is None:
         if prop == "C13":
-            cls = g.choices(["seq", "dup", "par", "stall", "budget"], weights=[34, 12, 29, 13, 12])[0]
+            cls = g.choices(["seq", "dup", "par", "stall", "budget", "failed_call", "long"], weights=[30, 11, 26, 12, 11, 7, 3])[0]
         else:
             cls = g.choices(["nofault", "seq", "par", "z3", "natural", "poison"], weights=[9, 30, 18, 22, 9, 12])[0]
+    if prop == "C13" and cls in ("failed_call", "long"):
+        return _generate_history(prop, sseed, idx, g, cls)
     if cls == "poison":
         return _generate_poison(prop, sseed, idx, g)
     # ---- base -------------------------------------------------------------------------
@@ -773,7 +819,18 @@ def generate(prop, verif_seed, idx, tier="quick", cls=None, recover=False):
     n_mgr = g.choice([1, 1, 2, 3])
     for _ in range(n_mgr):
         ops.append(_pick_cfg(g, force_z3=(cls == "z3"), weakly_only=weakly_base))
-    if n_mgr >= 2 and g.random() < 0.4:
+    base2 = None
+    if prop == "C13" and n_mgr >= 2 and g.random() < 0.3:
+        # the second manager works on ANOTHER base (same atoms): whatever the first one leaves behind in
+        # the process must not reach it (the reference is computed in a process of its own)
+        sig2, conds2 = W.gen_base(g, want="consistent", max_conds=g.choice([3, 5]), exact_atoms=len(sig)) if len(sig) <= 6 else (None, None)
+        if sig2 is not None and list(sig2) == list(sig):
+            base2 = {"text": W.base_text(sig2, conds2, name="kb2"), "src": "gen"}
+            ops[1] = dict(ops[1], base=2, weakly=False)
+            if ops[1]["system"] == "c-inference" or g.random() < 0.3:
+                ops[1]["system"] = "c-inference"
+                ops[1]["pmaxsat"] = g.choice(RC2_BACKENDS)
+    elif n_mgr >= 2 and g.random() < 0.4:
         # siblings over the same base object: the same operator in the other mode, or with the
         # other kind of back-end (anything cached on the shared base must not leak between them)
         sib = dict(ops[0])
@@ -852,6 +909,8 @@ def generate(prop, verif_seed, idx, tier="quick", cls=None, recover=False):
     if g.random() < 0.1:
         knobs["loglevel"] = "INFO"
     doc = {"property": prop, "seed": sseed, "idx": idx, "class": cls, "knobs": knobs, "base": {"text": text, "src": src}, "ops": ops}
+    if base2 is not None:
+        doc["base2"] = base2
     if prop == "C13":
         if cls == "budget":
             # long virtual service times: the per-query budget is a few virtual seconds to minutes
@@ -875,6 +934,64 @@ def generate(prop, verif_seed, idx, tier="quick", cls=None, recover=False):
             doc["fault_plan"] = {"n": g.choice([1, 2, 3]), "kinds": ["unknown", "unknown", "slow", "jump"]}
         else:
             doc["fault_plan"] = {"n": g.choice([1, 2, 3]), "kinds": ["slow", "slow", "jump"]}
+    return doc
+
+
+def _generate_history(prop, sseed, idx, g, cls):
+    """C13 classes that are about what a manager has been through:
+    failed_call - a warm-up call, a call in which a solver call fails (the exception escapes, as it
+                  must), then further calls that have to be answered as if nothing had happened;
+    long        - one RC2-backed manager asked 25-40 times, mostly deep queries (hundreds of query-local
+                  solver variables accumulate in its id pool)."""
+    from sim.gen import workload as W
+
+    if cls == "failed_call" and g.random() < 0.4:
+        sig, conds = W.gen_large_base(g, n_atoms=g.choice([4, 5]), n_conds=g.randint(11, 13))
+        text, src = W.base_text(sig, conds), "gen-large"
+    elif g.random() < 0.4 and W.shipped_bases():
+        src, sig, text = g.choice(W.shipped_bases())
+        conds = None
+    else:
+        sig, conds = W.gen_base(g, want="consistent", max_atoms=g.choice([3, 4, 5]), max_conds=g.choice([4, 6]))
+        text, src = W.base_text(sig, conds), "gen"
+    pool = []
+    for _ in range(6):
+        t = W.cond_text(W.gen_query(g, sig, conds))
+        if t not in pool:
+            pool.append(t)
+    system = g.choice(["c-inference", "c-inference", "system-w", "lex_inf"]) if cls == "failed_call" else g.choice(["system-w", "lex_inf", "c-inference"])
+    ops = [{"op": "new_manager", "system": system, "pmaxsat": g.choice(RC2_BACKENDS), "weakly": False}]
+    knobs = {"svc_scale": 1.0}
+    doc = {"property": prop, "seed": sseed, "idx": idx, "class": cls, "knobs": knobs, "base": {"text": text, "src": src}}
+    if cls == "failed_call":
+        def call(n):
+            texts = g.sample(pool, min(len(pool), n))
+            return {"op": "inference", "mgr": 0, "batch": [[k + 1, t] for k, t in enumerate(texts)], "multi": False}
+
+        ops.append(call(g.randint(1, 3)))  # completes preprocessing
+        ops.append(call(g.randint(1, 3)))  # the call that fails
+        failing = len(ops) - 1
+        for _ in range(g.randint(1, 2)):
+            c = call(g.randint(2, 4))
+            c["multi"] = g.random() < 0.25
+            if c["multi"]:
+                c["latencies"] = [0.001] * len(c["batch"])
+            ops.append(c)
+        doc["ops"] = ops
+        doc["fault_plan"] = {"n": 1, "kinds": ["error"], "ops": [failing], "parent_error": True, "sites": g.choice([["z3.check"], ["rc2.compute"], ["z3.check", "rc2.compute"]])}
+        return doc
+    # long
+    deep = []
+    if len(sig) >= 2:
+        for _ in range(3):
+            deep += [W.cond_text(c) for c in W.gen_deep_pair(g, sig)]
+    deep = list(dict.fromkeys(deep))
+    for _ in range(g.randint(25, 40)):
+        texts = g.sample(deep, min(len(deep), 3)) + g.sample(pool, 1) if deep else g.sample(pool, min(3, len(pool)))
+        g.shuffle(texts)
+        ops.append({"op": "inference", "mgr": 0, "batch": [[k + 1, t] for k, t in enumerate(texts)], "multi": False})
+    doc["ops"] = ops
+    doc["faults"] = []
     return doc
 
 
@@ -936,7 +1053,7 @@ def _generate_poison(prop, sseed, idx, g):
 
 
 def canonical(doc):
-    d = {k: doc[k] for k in ("property", "knobs", "base", "ops") if k in doc}
+    d = {k: doc[k] for k in ("property", "knobs", "base", "base2", "ops") if k in doc}
     d["faults"] = doc.get("faults")
     return hashlib.sha256(json.dumps(d, sort_keys=True).encode()).hexdigest()
 
